@@ -213,7 +213,7 @@ class Runtime:
             raise OutOfSubset('loop %d: kept name %s unbound' % (k, name))
         if name in L.fresh:
             return L.fresh[name]('havoc')
-        if name not in loc:
+        if name not in loc or loc[name] is _UNBOUND:
             return _UNBOUND
         v = loc[name]
         if v is None or isinstance(v, (bool, int, float, str)):
@@ -302,6 +302,7 @@ class Contract:
     prop = None
     label = None             # distinguishes several contracts of one function (e.g. case splits)
     fin = 5
+    fin_range = None         # finitised quantifier range; default fin + 1 (set it when indices like n + b occur)
     options = {}
     loops = {}
     max_paths = 4000
@@ -366,15 +367,18 @@ class FunctionRun:
         except OutOfSubset as e:
             self.error = 'front end: %s' % e
             return self
-        vc = VC('%s/%s' % (c.prop, c.cname), fin=self.fin, options=c.options)
+        vc = VC('%s/%s' % (c.prop, c.cname), fin=self.fin, options=c.options, fin_range=getattr(c, 'fin_range', None))
         self.vc = vc
         from . import pyspec, npspec
 
         def run_once():
-            s, args, kwargs = c.setup(vc)
             g = pyspec.make_globals()
             g['np'] = npspec.module()
             g['__vc_locals__'] = builtins.locals
+            vc.g = g
+            vc.inlined = []
+            vc.repo = self.repo
+            s, args, kwargs = c.setup(vc)
             g.update(c.env(vc))
             vc.hooks = dict(c.hooks(s)) if hasattr(c, 'hooks') else {}
             rt = Runtime(vc, c, s)
@@ -382,6 +386,9 @@ class FunctionRun:
             s.__dict__['rt'] = rt
             exec(code, g)
             fn = g[self.loc.node.name]
+            env_post = getattr(c, 'env_post', None)     # names re-bound AFTER the definition: a recursive function's own name -> Stub of its contract
+            if env_post is not None:
+                g.update(env_post(vc))
             for f in c.requires(s):
                 vc.assume(f[1] if isinstance(f, tuple) else f)
             if not vc.feasible():
@@ -457,3 +464,38 @@ class Stub:
         vc = cur()
         vc.libcall('stub:' + self.name, (a, kw))
         return self.spec(vc, *a, **kw)
+
+
+_inline_cache = {}
+
+
+def inline(vc, target):
+    """the REAL function `target`, instrumented (no loop cutting: its loops must be concrete) and compiled in the
+    spec environment of the current run - for tiny helpers/properties that a contract wants executed, not stubbed"""
+    key = (target, vc.repo, id(vc))
+    loc = instrument.locate(target, vc.repo)
+    ck = (target, loc.sha256)
+    if ck not in _inline_cache:
+        code, stats, text = instrument.instrument(loc, ())
+        _inline_cache[ck] = (code, stats)
+    code, stats = _inline_cache[ck]
+    ns = dict(vc.g)
+    exec(code, vc.g, ns)
+    fn = ns[loc.node.name]
+    if not any(t == target for t, _ in vc.inlined):
+        vc.inlined.append((target, loc.sha256))
+    return fn
+
+
+def make_object(name, attrs=None, methods=None, properties=None, bases=()):
+    """a stub `self`: plain attributes, bound methods (stubs or inlined real functions) and properties"""
+    d = {}
+    for k, f in (properties or {}).items():
+        d[k] = property(f)
+    for k, f in (methods or {}).items():
+        d[k] = f
+    cls = type(name, tuple(bases) or (object,), d)
+    o = cls.__new__(cls)
+    for k, v in (attrs or {}).items():
+        setattr(o, k, v)
+    return o
